@@ -15,8 +15,38 @@ import queue
 from . import PKG, SRC
 
 
+class _AccumulateLoops(ast.NodeTransformer):
+    """Mechanical normalisation applied to every function before it is executed (part of the extraction, DESIGN 2.2):
+         for T in ITER:                      X.extend([E for T in ITER if C])
+             [if C:]            ==>
+                 X.append(E)
+    for a plain local name X that occurs neither in ITER, C nor E.  The two forms differ only in when the appends happen relative to the
+    evaluation of later elements (E / C do not read X) and in how much of X is filled when E raises (X is a local of the aborted frame)."""
+
+    def visit_For(self, node):
+        self.generic_visit(node)
+        if node.orelse or len(node.body) != 1:
+            return node
+        stmt, cond = node.body[0], None
+        if isinstance(stmt, ast.If) and not stmt.orelse and len(stmt.body) == 1:
+            stmt, cond = stmt.body[0], stmt.test
+        if not (isinstance(stmt, ast.Expr) and isinstance(stmt.value, ast.Call) and isinstance(stmt.value.func, ast.Attribute) and stmt.value.func.attr == "append"
+                and isinstance(stmt.value.func.value, ast.Name) and len(stmt.value.args) == 1 and not stmt.value.keywords):
+            return node
+        x = stmt.value.func.value.id
+        parts = [node.iter, stmt.value.args[0]] + ([cond] if cond is not None else [])
+        if any(isinstance(n, ast.Name) and n.id == x for p_ in parts for n in ast.walk(p_)):
+            return node
+        if any(isinstance(n, (ast.Yield, ast.YieldFrom, ast.Await, ast.NamedExpr)) for p_ in parts for n in ast.walk(p_)):
+            return node
+        comp = ast.ListComp(elt=stmt.value.args[0], generators=[ast.comprehension(target=node.target, iter=node.iter, ifs=[cond] if cond is not None else [], is_async=0)])
+        new = ast.Expr(value=ast.Call(func=ast.Attribute(value=ast.Name(id=x, ctx=ast.Load()), attr="extend", ctx=ast.Load()), args=[comp], keywords=[]))
+        return ast.fix_missing_locations(ast.copy_location(new, node))
+
+
 class FuncInfo:
     def __init__(self, name, node, module, cls=None):
+        node = _AccumulateLoops().visit(node)
         self.name, self.node, self.module, self.cls = name, node, module, cls
         self.decorators = []
         for d in node.decorator_list:
